@@ -1480,7 +1480,6 @@ func (t *table) gc(now bigtable.Timestamp, done <-chan struct{}, force bool) {
 
 	// TODO(scottb): could collect batches of rows that need GC with only a read lock, update with write lock.
 
-	i := 0
 	var emptied []keyType // rows left without cells; deleted once the iteration is over
 	defer func() {
 		for _, k := range emptied {
@@ -1489,44 +1488,67 @@ func (t *table) gc(now bigtable.Timestamp, done <-chan struct{}, force bool) {
 			}
 		}
 	}()
-	t.rows.Ascend(func(r *btpb.Row) bool {
-		verifPoint("gc.row", r.Key)
-		changed := false
-		for _, fam := range r.Families {
-			gcRule := rules[fam.Name]
-			if gcRule != nil {
-				for _, col := range fam.Columns {
-					n := len(col.Cells)
-					col.Cells = applyGC(col.Cells, gcRule, now)
-					changed = changed || n != len(col.Cells)
+
+	// Work in batches of 100 rows, giving up the table lock between batches so that clients are not blocked for the
+	// whole pass. No iterator is kept across the lock reversal: the next batch starts a fresh iteration just after
+	// the last key done, so it sees the rows as clients left them in the meantime (an iterator carried across would
+	// write stale copies back on the leveldb engines, and breaks when the btree changes under it).
+	const batchSize = 100
+	var next keyType // the first key of the next batch; nil for the very first batch
+	for {
+		n := 0
+		more := false
+		var last keyType
+		collect := func(r *btpb.Row) bool {
+			if n == batchSize {
+				more = true
+				return false
+			}
+			n++
+			last = r.Key
+			verifPoint("gc.row", r.Key)
+			changed := false
+			for _, fam := range r.Families {
+				gcRule := rules[fam.Name]
+				if gcRule != nil {
+					for _, col := range fam.Columns {
+						before := len(col.Cells)
+						col.Cells = applyGC(col.Cells, gcRule, now)
+						changed = changed || before != len(col.Cells)
+					}
 				}
 			}
-		}
-		if changed {
-			r, _ := scrubRow(r, t.cols())
-			t.rows.ReplaceOrInsert(r)
-			if len(r.Families) == 0 {
-				emptied = append(emptied, r.Key)
+			if changed {
+				r, _ := scrubRow(r, t.cols())
+				t.rows.ReplaceOrInsert(r)
+				if len(r.Families) == 0 {
+					emptied = append(emptied, r.Key)
+				}
 			}
-		}
-		i++
-		if i%100 != 0 {
 			return true
 		}
+		if next == nil {
+			t.rows.Ascend(collect)
+		} else {
+			t.rows.AscendGreaterOrEqual(next, collect)
+		}
+		if !more {
+			return
+		}
+		next = append(append(keyType{}, last...), 0) // the immediate successor of the last key done
 
 		// Reverse lock; check if we should exit
 		verifPoint("gc.preWindow")
 		t.mu.Unlock()
-		defer verifPoint("gc.relocked")
-		defer t.mu.Lock()
 		verifPoint("gc.window")
+		t.mu.Lock()
+		verifPoint("gc.relocked")
 		select {
 		case <-done:
-			return false // server has been closed
+			return // server has been closed
 		default:
-			return true
 		}
-	})
+	}
 }
 
 func (t *table) read() {
